@@ -234,6 +234,7 @@ class Engine:
       self.globals.update(globals_)
     self.quick_prune = quick_prune
     self.max_paths = 4000
+    self.on_empty_list = None  # script hook: what `[]` allocates
     self.stats = {'paths': 0}
 
   # ------------------------------------------------------------------ driver
@@ -533,6 +534,8 @@ class Engine:
 
   def e_List(self, ctx, e):
     items = list(self.e_Tuple(ctx, e))
+    if not items and self.on_empty_list is not None:
+      return self.on_empty_list(ctx)
     return ctx.alloc(PyListCell(items))
 
   def e_Set(self, ctx, e):
